@@ -338,7 +338,7 @@ def main(argv=None):
     results = run_pool(obs, seed, a.tier, a.jobs)
     byid = {o.oid: o for o in obs}
     os.makedirs(os.path.join(HERE, "work"), exist_ok=True)
-    with open(os.path.join(HERE, "work", "%s%s_%s_results.json" % ("noev_" if a.no_evidence else "", pid, a.tier)), "w") as f:
+    with open(os.path.join(HERE, "work", "%s%s_%s_results.json" % ("noev_" if a.no_evidence else "partial_" if a.only else "", pid, a.tier)), "w") as f:
         json.dump([dict(r, funcs=None, tags=byid[r["oid"]].tags) for r in results], f)
 
     violations = []
